@@ -3,17 +3,120 @@
 #         shared location: no conflicting access pair, and every thread's results equal its sequential results; the per-class
 #         decision (which const operations / copy-construction write shared state) is re-computed by vm_compute on the
 #         description generated from /repo's current source (shared with C16: harness/c16_objmodel.py).
-# tie   : translator (clang AST -> footprints); support runs: harness/c18_threads.C with 2-8 std::threads on one shared object
-#         (per-thread digests against the sequential digest) and the same file built with -fsanitize=thread.
+#         coq/C16/RaceFreeDisjoint.v — the same two conclusions for DISJOINT footprints (each thread writes only what no other thread
+#         touches: thread-private elements, independent values); coq/C16/RaceFreeValues.v — independent big integers / rationals /
+#         fixed-precision integers: calls accepted by the decider on thread-owned objects; the list of EVERY function body of the
+#         value classes with the statics it touches is generated from the current source (harness/c18_values.py ->
+#         coq/C16/gen/RaceFreeGen.v) and decided by vm_compute on every run (RaceFreeProps.v).
+# tie   : translators (clang AST -> footprints); support runs: harness/c18_threads.C with 2-9 std::threads on one shared object
+#         (per-thread digests against the sequential digest) and on thread-private values (Mixed<values>: every thread a different
+#         family of operations), and the same file + a ThreadSanitizer-instrumented library built with -fsanitize=thread.
 # NOT modelled: the C++ memory model, the compiler, the thread library, the hardware.
-import json, os, re, sys, threading, time
+# Scheduler / load dependent outcomes (a run that did not finish in time, a sanitizer build or run that failed, a digest difference
+# or crash that does not reproduce in a second run) are INCONCLUSIVE streams recorded in the evidence, never violations.
+import glob, json, os, re, subprocess, sys, threading, time
 import vf
 import C16
 sys.path.insert(0, os.path.join(vf.ROOT, "harness"))
 import c16_objmodel as om
+import c18_values as cv
 
 AREA = "C16"
 THREAD_CLASSES = C16.HIST_CLASSES + ["QField<Rational>", "Independent<Integer,Rational,ruint>"]
+MIXED = ("Mixed<values>", "MixedRotate<values>")
+EXTRA_V = ["RaceFreeDisjoint.v", "RaceFreeValues.v", "gen/RaceFreeGen.v", "RaceFreeProps.v"]      # the C18 engineer's part of coq/C16
+TRANSIENT = re.compile(r"inconsistent assumptions|bad version number|End_of_file|Cannot find a physical path|not a valid|No such file|Cannot open|Compiled library")
+
+
+def inconclusive(chk, what, detail=""):
+    chk.cov.setdefault("inconclusive_streams", []).append({"what": what, "detail": str(detail)[-400:]})
+    chk.notes.append("INCONCLUSIVE (not a verdict): " + what)
+
+
+# ------------------------------------------------------------------------------------------------ value classes: footprints + Coq
+
+def values_model(chk):
+    """regenerate coq/C16/gen/RaceFreeGen.v from the current source and turn the decision into verdict items"""
+    res, err, timed_out = cv.build()
+    if res is None:
+        if timed_out:
+            inconclusive(chk, "value-class footprint generator: clang did not finish in time", err)
+        else:
+            chk.broke("value-class footprint generator failed on /repo's current source (harness/c18_inst.C no longer compiles under clang?)", err or "")
+        return None
+    vf.write_if_changed(os.path.join(vf.coq_dir(AREA), "gen", "RaceFreeGen.v"), cv.emit_coq(res))
+    off, doc = cv.decide(res)
+    for o in off:
+        w = sorted(set(cv.writes_of(o) + cv.random_of(o)))
+        chk.fail_input(o["site"], "static-write:" + ",".join(w),
+                       {"operation": o["uid"], "kind": o["kind"], "effects": o["effects"], "via": o["via"]},
+                       "an operation of Integer / Rational / RecInt on thread-private values writes no process-wide state (only the documented setters do)",
+                       "%s writes %s" % (o["fn"], ",".join(w)),
+                       "description generated from the source: a thread running this operation races with every thread that reads or writes %s "
+                       "(C18_mode_switch_refuted exhibits the failing interleaving)" % ",".join(w))
+    m = res["meta"]
+    if len(m.get("families_in_dump", [])) < 9 or m.get("reachable_from_families", 0) < 300:
+        chk.broke("value-class footprint generator: the operation families of harness/c18_values.h are not in the AST dump", json.dumps(m)[:1500])
+    reads = {}
+    for o in res["ops"]:
+        for t in o["effects"]:
+            if t[0] in ("RGlobal", "RExcluded", "WStaticInit"):
+                reads.setdefault("%s %s" % tuple(t), 0)
+                reads["%s %s" % tuple(t)] += 1
+    chk.cov["value_classes"] = {
+        "function_bodies_decided": len(res["ops"]), "reachable_from_thread_families": m.get("reachable_from_families"),
+        "template_patterns_skipped": m.get("template_patterns_skipped"), "library_sources": m.get("library_sources"),
+        "writers_of_statics_all_documented": sorted("[%s] %s -> %s" % (c, o["uid"], ",".join(cv.writes_of(o) + cv.random_of(o))) for o, c, _ in doc)[:90],
+        "undocumented_writers": [o["uid"] for o in off],
+        "statics_only_read_or_excluded (effect, number of operations)": reads,
+        "translator": {k: m.get(k) for k in ("cached", "seconds", "clang_seconds", "ast_objects", "decls_indexed", "calls_resolved", "calls_unresolved")}}
+    return res
+
+
+def coq_extra(chk):
+    """compile the C18 engineer's files of coq/C16 (not in the shared _CoqProject: gen/RaceFreeGen.v is generated by THIS check) and
+    collect Print Assumptions of RaceFreeProps.v.  Same result shape as vf.coq_check_props."""
+    d = vf.coq_dir(AREA)
+    res = {"ok": False, "theorems": vf.coq_theorems(os.path.join(d, "RaceFreeProps.v")), "assumptions": {}, "log": "", "forbidden": vf.forbidden_scan(d)}
+
+    def stale(v):
+        vo = os.path.join(d, v[:-2] + ".vo")
+        if not os.path.exists(vo):
+            return True
+        t = os.path.getmtime(vo)
+        deps = [os.path.join(d, v), os.path.join(d, "ObjModel.vo"), os.path.join(d, "RaceFree.vo")] + \
+               [os.path.join(d, x[:-2] + ".vo") for x in EXTRA_V[:EXTRA_V.index(v)]]
+        return any(os.path.exists(p) and os.path.getmtime(p) > t for p in deps)
+
+    def once(force):
+        log = ""
+        for v in EXTRA_V:
+            last = v == EXTRA_V[-1]
+            if not (force or last or stale(v)):
+                continue
+            rc, o = vf.sh(["coqc", "-Q", ".", "C16", v], cwd=d, timeout=1500)
+            log += "== coqc %s (rc %d)\n%s\n" % (v, rc, o[-3000:] if rc else "")
+            if rc != 0:
+                return rc, log, o
+            force = True                      # everything after a rebuilt file is rebuilt
+            if last:
+                return 0, log, o
+        return 0, log, ""
+    rc, log, out = once(False)
+    if rc != 0 and rc != 124 and TRANSIENT.search(log):
+        # coq/C16 is shared with the C16 check, which may have rebuilt ObjModel.vo / RaceFree.vo under our feet: build once more
+        vf.coq_make(AREA)
+        rc, log, out = once(True)
+    res["log"] = log[-6000:]
+    if rc == 124:
+        res["timeout"] = True
+        return res
+    if rc == 0:
+        res["assumptions"] = vf.parse_assumptions(out, res["theorems"])
+        res["ok"] = not res["forbidden"]
+    return res
+
+
 NO_COPY_IN_THREADS = {"RNSsystem<Integer,Modular<double>>"}   # Array0 members live in the process-wide free lists (excluded by the property text)
 ALLOCATOR_MARKS = ("GivMMFreeList", "GivMMRefCount", "GivMMInfo", "givaromm", "BlocFreeList")
 
@@ -99,75 +202,190 @@ def tsan_reports(stderr):
     return out
 
 
+def run_requests(binary, reqs, jobs, timeout, env=None):
+    """run the fork-per-request harness on `jobs` interleaved chunks.  returns ({request: output line}, stderr text, problems)"""
+    chunks = [reqs[i::jobs] for i in range(jobs) if reqs[i::jobs]]
+    out, errs, probs = {}, [], []
+    lock = threading.Lock()
+
+    def work(chunk):
+        e = dict(os.environ)
+        e.update(env or {})
+        try:
+            p = subprocess.run([binary], input="".join(chunk), stdout=subprocess.PIPE, stderr=subprocess.PIPE, universal_newlines=True,
+                               errors="replace", timeout=timeout, env=e)
+            lines, err = p.stdout.splitlines(), p.stderr
+        except subprocess.TimeoutExpired as ex:
+            so = ex.stdout or ""
+            lines = (so.decode("utf-8", "replace") if isinstance(so, bytes) else so).splitlines()
+            se = ex.stderr or ""
+            err = se.decode("utf-8", "replace") if isinstance(se, bytes) else se
+            with lock:
+                probs.append("a harness process did not finish within %d s (%d of %d requests answered)" % (timeout, len(lines), len(chunk)))
+        except Exception as ex:           # cannot start the binary, ...
+            lines, err = [], ""
+            with lock:
+                probs.append("harness process: %s" % ex)
+        with lock:
+            for r, l in zip(chunk, lines):
+                out[r] = l
+            errs.append(err)
+    ths = [threading.Thread(target=work, args=(c,)) for c in chunks]
+    for t in ths:
+        t.start()
+    for t in ths:
+        t.join()
+    return out, "".join(errs), probs
+
+
+def build_tsan(chk):
+    """harness + a ThreadSanitizer-instrumented build of the library's own .C files (Rational, Integer, allocator ... live there)"""
+    flags = ("-O1", "-g", "-fsanitize=thread")
+    lib, log = vf.build_repo_lib(extra_flags=flags, tag="tsan")
+    if lib is None:
+        return None, "instrumented library: " + log[-600:]
+    srcp = os.path.join(vf.ROOT, "harness", "c18_threads.C")
+    key = vf.file_hash(vf.repo_sources() + [srcp] + [os.path.join(vf.ROOT, "harness", x) for x in ("c16_probes.h", "c18_values.h")], " ".join(flags) + "tsan-lib-v2")
+    d = vf.mkdir(os.path.join(vf.CACHE, "h-c18_threads_tsan-%s" % key))
+    b = os.path.join(d, "c18_threads_tsan")
+    if os.path.exists(b):
+        return b, ""
+    tmpb = "%s.tmp%d" % (b, os.getpid())
+    cmd = [vf.CXX] + vf.BASE_FLAGS + ["-O0", "-g", "-fsanitize=thread"] + vf.inc_flags() + ["-I" + os.path.join(vf.ROOT, "harness"), srcp, "-o", tmpb, lib,
+                                                                                             "-lgmpxx", "-lgmp", "-lpthread"]
+    rc, out = vf.sh(cmd, timeout=1500)
+    if rc != 0:
+        try:
+            os.remove(tmpb)
+        except OSError:
+            pass
+        return None, out
+    os.rename(tmpb, b)
+    vf.prune_cache("h-c18_threads_tsan-", keep=4)
+    return b, out
+
+
+def thread_requests(tier):
+    reqs = []
+    its = 25 if tier == "quick" else 300
+    for c in THREAD_CLASSES:
+        for (P, T) in ((0, 2), (1, 4), (2, 8)) if tier == "quick" else ((0, 2), (1, 3), (2, 4), (3, 8), (1, 8), (0, 6)):
+            reqs.append("%s %d %d %d%s\n" % (c, P, T, its, " nocopy" if c in NO_COPY_IN_THREADS else ""))
+    # thread-private values, every thread a different family (all 9 at once; pairs/quadruples at every offset; rotation)
+    mi = 12 if tier == "quick" else 120
+    reqs.append("Mixed<values> 0 9 %d\n" % mi)
+    reqs.append("Mixed<values> 0 18 %d\n" % (mi // 2))
+    for P in range(9):
+        reqs.append("Mixed<values> %d 2 %d\n" % (P, mi))
+    for P in (0, 3, 6):
+        reqs.append("Mixed<values> %d 4 %d\n" % (P, mi))
+    reqs.append("MixedRotate<values> 0 9 %d\n" % (2 * mi))
+    reqs.append("MixedRotate<values> 4 5 %d\n" % (2 * mi))
+    return reqs
+
+
+def report_thread_line(chk, r, line, second=None):
+    t = r.split()
+    kind = "crash" if " X " in line else "diff"
+    fam = re.search(r"what=(\S+)", line)
+    klass = kind + (":" + fam.group(1) if (t[0] in MIXED and fam) else "")
+    chk.fail_input("threads:%s" % t[0], klass, {"class": t[0], "param": int(t[1]), "threads": int(t[2]), "iterations": int(t[3])},
+                   "every thread's digests equal the sequential digest", line + ((" | second run: " + second) if second else ""),
+                   "replay: echo '%s' | c18_threads   (reproduced in a second run)" % r.strip())
+
+
 def run_threads(chk, tier):
     res = {}
     vf.build_repo_lib()              # once, before the two harness builds run concurrently
 
-    def build(tag, flags):
-        res[tag] = vf.build_harness("c18_threads.C", extra_flags=flags, deps=("c16_probes.h",), name="c18_threads_" + tag)
-    jobs = [threading.Thread(target=build, args=("std", ())), threading.Thread(target=build, args=("tsan", ("-O0", "-g", "-fsanitize=thread")))]
+    def build_std():
+        res["std"] = vf.build_harness("c18_threads.C", deps=("c16_probes.h", "c18_values.h"), name="c18_threads_std")
+
+    def build_san():
+        try:
+            res["tsan"] = build_tsan(chk)
+        except Exception as ex:
+            res["tsan"] = (None, str(ex))
+    jobs = [threading.Thread(target=build_std), threading.Thread(target=build_san)]
     for j in jobs:
         j.start()
     for j in jobs:
         j.join()
     hb, log = res["std"]
     n = 0
+    forms = {}
     if hb is None:
         chk.broke("thread harness does not compile against /repo", log)
     else:
-        reqs = []
-        its = 25 if tier == "quick" else 300
-        for c in THREAD_CLASSES:
-            for (P, T) in ((0, 2), (1, 4), (2, 8)) if tier == "quick" else ((0, 2), (1, 3), (2, 4), (3, 8), (1, 8), (0, 6)):
-                reqs.append("%s %d %d %d%s\n" % (c, P, T, its, " nocopy" if c in NO_COPY_IN_THREADS else ""))
-        ok, out, err = C16.run_parallel(hb, reqs, jobs=3, timeout=1500)
-        if not ok:
-            chk.broke("thread harness failed (lost output lines)", err[-2000:])
-        else:
-            for r, line in zip(reqs, out):
-                t = r.split()
-                n += 1
-                chk.count(("threads", r), True)
-                if len(chk.cov["samples"]) < 6 and n % 17 == 1:
-                    chk.sample({"request": r.strip(), "observed": line})
-                if " ok" in line:
-                    continue
-                kind = "crash" if " X " in line else "diff"
-                chk.fail_input("threads:%s" % t[0], kind, {"class": t[0], "param": int(t[1]), "threads": int(t[2]), "iterations": int(t[3])},
-                               "every thread's digests equal the sequential digest", line,
-                               "replay: echo '%s' | c18_threads" % r.strip())
+        rc, fo = vf.sh([hb, "--families"], timeout=120)
+        for l in fo.splitlines():
+            if "\t" in l:
+                forms[l.split("\t")[0]] = {"call_forms": l.split("\t", 1)[1], "thread_runs": 0, "tsan_runs": 0}
+        reqs = thread_requests(tier)
+        out, err, probs = run_requests(hb, reqs, jobs=3, timeout=2400)
+        for pb in probs:
+            inconclusive(chk, "std::thread run: " + pb)
+        redo = []
+        for r in reqs:
+            line = out.get(r)
+            if line is None:
+                continue                         # not answered (a process timed out): already recorded as inconclusive
+            t = r.split()
+            n += 1
+            chk.count(("threads", r), True)
+            if t[0] in MIXED:
+                nf = max(1, len(forms))
+                for i, fam in enumerate(list(forms)):
+                    # family (thread + offset) mod NFAM: which families this request ran concurrently
+                    if t[0] == "MixedRotate<values>" or any((th + int(t[1])) % nf == i for th in range(int(t[2]))):
+                        forms[fam]["thread_runs"] += int(t[3]) if t[0] == "Mixed<values>" else max(1, int(t[3]) // nf)
+            if len(chk.cov["samples"]) < 6 and n % 17 == 1:
+                chk.sample({"request": r.strip(), "observed": line})
+            if " ok" in line:
+                continue
+            if " T timeout" in line:
+                inconclusive(chk, "std::thread run did not finish in time: " + r.strip())
+                continue
+            redo.append((r, line))
+        if redo:
+            # a difference / crash must reproduce before it is reported: same request, twice the iterations
+            again = ["%s %s %s %d%s\n" % (r.split()[0], r.split()[1], r.split()[2], 2 * int(r.split()[3]), " nocopy" if "nocopy" in r else "") for r, _ in redo]
+            out2, _, probs2 = run_requests(hb, again, jobs=min(3, len(again)), timeout=2400)
+            for (r, line), r2 in zip(redo, again):
+                l2 = out2.get(r2)
+                if l2 is not None and " ok" not in l2 and " T timeout" not in l2:
+                    report_thread_line(chk, r, line, l2)
+                else:
+                    inconclusive(chk, "std::thread run: '%s' answered '%s' once and '%s' in the second run (not reproduced: not reported)" % (r.strip(), line, l2))
     chk.cov["thread_runs"] = n
     tb, tlog = res["tsan"]
     if tb is None:
-        chk.notes.append("ThreadSanitizer build failed (support run skipped): " + tlog[-300:])
+        inconclusive(chk, "ThreadSanitizer build failed (support run skipped)", tlog)
+        chk.cov["call_forms_values"] = forms
         return
     reqs = []
     for c in THREAD_CLASSES:
         reqs.append("%s 1 3 %d%s\n" % (c, 2 if tier == "quick" else 6, " nocopy" if c in NO_COPY_IN_THREADS else ""))
-    env = {"TSAN_OPTIONS": "halt_on_error=0 exitcode=0 report_signal_unsafe=0 history_size=4"}
-    reports = []
-    lock = threading.Lock()
-
-    def work(chunk):
-        try:
-            import subprocess
-            e = dict(os.environ); e.update(env)
-            p = subprocess.run([tb], input="".join(chunk), stdout=subprocess.PIPE, stderr=subprocess.PIPE, universal_newlines=True,
-                               errors="replace", timeout=1500, env=e)
-            with lock:
-                reports.extend(tsan_reports(p.stderr))
-                res.setdefault("tsan_out", []).extend(p.stdout.splitlines())
-        except Exception as ex:
-            with lock:
-                res.setdefault("tsan_err", []).append(str(ex))
-    nj = 4
-    ths = [threading.Thread(target=work, args=(reqs[i::nj],)) for i in range(nj)]
-    for t in ths:
-        t.start()
-    for t in ths:
-        t.join()
-    if res.get("tsan_err"):
-        chk.notes.append("ThreadSanitizer run problems: " + "; ".join(res["tsan_err"])[:300])
+    reqs.append("Mixed<values> 0 9 %d\n" % (1 if tier == "quick" else 3))
+    reqs.append("MixedRotate<values> 0 3 %d\n" % (9 if tier == "quick" else 18))
+    env = {"TSAN_OPTIONS": "halt_on_error=0 exitcode=0 report_signal_unsafe=0 history_size=4", "C18_ALARM": "1500"}
+    out, err, probs = run_requests(tb, reqs, jobs=5, timeout=2400, env=env)
+    for pb in probs:
+        inconclusive(chk, "ThreadSanitizer run: " + pb)
+    if "ThreadSanitizer" in err and re.search(r"FATAL: ThreadSanitizer|ThreadSanitizer: (unexpected memory mapping|failed to)", err):
+        inconclusive(chk, "ThreadSanitizer runtime unavailable in this environment", err[-300:])
+    nt = 0
+    for r in reqs:
+        line = out.get(r)
+        if line is None:
+            continue
+        nt += 1
+        if " T timeout" in line:
+            inconclusive(chk, "ThreadSanitizer run did not finish in time: " + r.strip())
+        if r.split()[0] in MIXED:
+            for fam in forms:
+                forms[fam]["tsan_runs"] += 1
+    reports = tsan_reports(err)
     seen = set()
     nexcl = 0
     for cls, where, klass, excl, text, kind in reports:
@@ -179,10 +397,11 @@ def run_threads(chk, tier):
             continue
         seen.add(key)
         chk.fail_input("tsan:" + cls, klass, {"class": cls, "where": where, "kind": kind, "threads": 3}, "no ThreadSanitizer report", text[:2500],
-                       "ThreadSanitizer build of harness/c18_threads.C: %s at %s (%s)" % (kind, where, klass))
-    chk.cov["tsan_classes_run"] = len(res.get("tsan_out", []))
+                       "ThreadSanitizer build of harness/c18_threads.C + instrumented library: %s at %s (%s)" % (kind, where, klass))
+    chk.cov["tsan_classes_run"] = nt
     chk.cov["tsan_reports"] = len(reports)
     chk.cov["tsan_reports_in_excluded_allocator"] = nexcl
+    chk.cov["call_forms_values"] = forms
 
 
 def main(tier, replay=None):
@@ -191,22 +410,36 @@ def main(tier, replay=None):
         "Coq 8.16.1 kernel + vm_compute; theorems closed under the global context",
         "harness/c16_objmodel.py (clang 14 JSON AST -> per-method write footprints on shared state: own members through mutable / casts / "
         "pointers, function-local statics, class and namespace statics; callees without a body in the dump are assumed const-correct)",
-        "the model's notion of execution: an operation whose write footprint is empty is an atomic read-only step; guarded initialisation of a "
-        "function-local static is synchronised by the language (C++11 [stmt.dcl]/4)",
-        "NOT modelled (why the claim is partial): the C++ memory model, compiler transformations, libstdc++/pthread, the hardware; "
-        "ThreadSanitizer (g++ 12, -O0) and the std::thread digest run are support, not proof",
-        "harness/c18_threads.C, harness/c16_probes.h, checks/C18.py",
+        "harness/c18_values.py (same access-path analysis, looking through parentheses, on the library's own .C files + harness/c18_inst.C: "
+        "every function body of Integer / Rational / RecInt / the integer domains with the statics it reads and writes; uninstantiated "
+        "template patterns are skipped, their instantiations are analysed; GMP and libstdc++ bodies are not in the dump)",
+        "the allow-list DOCUMENTED_WRITERS of harness/c18_values.py: setters of documented switches (Rational::SetReduce/SetNoReduce, "
+        "rmint::init_module), random generators, the GivMM allocator, library start-up are the only functions that may write a static",
+        "the model's notion of execution: an operation is an atomic step whose effect respects its footprint (exec_frame, exec_det); guarded "
+        "initialisation of a function-local static is synchronised by the language (C++11 [stmt.dcl]/4)",
+        "NOT modelled (why the claim is partial): the C++ memory model, compiler transformations, libstdc++/pthread, GMP, the hardware; "
+        "ThreadSanitizer (g++ 12) and the std::thread digest runs are support, not proof",
+        "harness/c18_threads.C, harness/c18_values.h, harness/c16_probes.h, checks/C18.py",
     ]
     chk.assumptions = [
-        "excluded by the property text: process-wide allocator free lists (GivMMFreeList), GMP random state; randomised operations "
+        "excluded by the property text: process-wide allocator free lists (GivMMFreeList), GMP / RecInt random state; randomised operations "
         "(advancing a generator member such as Poly1FactorDom::_g) are outside the claim, which lists arithmetic, init, convert, comparisons, copy-construction",
-        "elements / operands are thread-private",
+        "elements / operands are thread-private; documented setters of process-wide parameters (Rational::SetReduce/SetNoReduce, rmint::init_module) "
+        "are not called while other threads compute",
     ]
     descs, meta = C16.generate(chk)
+    vres = values_model(chk)
     res = vf.coq_check_props(AREA)
     keep = [t for t in res["theorems"] if t.startswith("C18_")]
     res = dict(res, theorems=keep, assumptions={k: v for k, v in res["assumptions"].items() if k in keep})
     chk.proof_result(res, AREA)
+    if vres is not None:
+        res2 = coq_extra(chk)
+        if res2.get("timeout"):
+            inconclusive(chk, "coqc on the RaceFree* files of coq/C16 did not finish in time", res2["log"])
+        else:
+            chk.proof_result(res2, AREA, propfile="RaceFreeProps.v")
+            chk.cov["checker_cmd"] += " (RaceFreeDisjoint.v, RaceFreeValues.v, gen/RaceFreeGen.v, RaceFreeProps.v are compiled by checks/C18.py with coqc -Q . C16, in this order)"
     if descs:
         n_meth, n_ok, rand = structural_c18(chk, descs)
         chk.cov["claimed_const_methods"] = n_meth
@@ -216,6 +449,10 @@ def main(tier, replay=None):
     run_threads(chk, tier)
     chk.cov["rule"] = ("per class in scope: one shared object, (parameter set, threads) in {(0,2),(1,4),(2,8)} (thorough: 6 combinations up to 8 threads, "
                        "300 iterations); each thread repeats probe(shared) / copy-construct / probe(copy) / destroy and compares every digest with the "
-                       "sequential digest; plus a ThreadSanitizer build of the same harness with 3 threads; every run is non-trivial (>= 2 threads); "
-                       "distinct = (class, parameter set, threads, iterations)")
+                       "sequential digest; Mixed<values>: 9 operation families on thread-private Integer / Rational / ruint / rint / rmint values "
+                       "(constructors from every native type incl. +-0 / denormal / huge doubles, arithmetic, comparisons, I/O to private streams, "
+                       "conversions), thread t runs family (t+offset) mod 9: all 9 at once, 18 threads, every pair of neighbours, quadruples, rotation; "
+                       "every digest against the family's sequential digest, all families once more after the threads ended; plus a ThreadSanitizer "
+                       "build (harness + instrumented library) of the same scenarios; a difference must reproduce in a second run; every run is "
+                       "non-trivial (>= 2 threads); distinct = (class, parameter set, threads, iterations)")
     return chk.finish()
